@@ -117,7 +117,11 @@ func runPoison(raw json.RawMessage) (interface{}, error) {
 	}
 	fake.set(entries)
 	cfg := &config.Consul{Addr: addr, Scheme: "http", TagPrefix: in.Prefix, ServiceMonitors: 1}
-	text := consul.VerifC14MakeConfig(client, cfg, in.DC, passing)
+	text, blocked := makeConfigTimed(func() string { return consul.VerifC14MakeConfig(client, cfg, in.DC, passing) })
+	if blocked {
+		// makeConfig does not come back: Watch never sends another update, the routes of ALL services are frozen
+		return map[string]interface{}{"blocked": true}, nil
+	}
 	// every named service must have been looked up exactly once: a failed catalog request (which serviceConfig
 	// only logs) would silently drop that service's routes from the text
 	names := map[string]bool{}
